@@ -236,7 +236,7 @@ fn entry_points(ctx: &Ctx, c: &Case) -> PResult {
 }
 
 pub fn props() -> Vec<(Box<dyn PropDyn>, u32, u32)> {
-    vec![(Box::new(Prop::new("boundary", case_strategy, check).shrink(200)), 1600, 30000)]
+    vec![(Box::new(Prop::new("boundary", case_strategy, check).shrink(200)), 6000, 60000)]
 }
 
 pub fn describe(ctx: &Ctx) {
